@@ -25,8 +25,49 @@ def strip_stops(prog):
     return [[a for a in body if not ((a[0] == "cmd" and a[1][0] == "stop") or a[0] == "extstop")] for body in prog]
 
 
+def gen_fine_case(rng: random.Random, clock: str) -> dict:
+    """fine exact scale (2**-40): cut points one step before / at / one step after event times"""
+    prog, init = c02.gen_fine(rng)
+    times = sorted({a[1][1] for a in prog[0] if a[0] == "sched"})
+    cmds = [init]
+    t = 0
+    for _ in range(rng.randint(1, 5)):
+        r = rng.random()
+        if r < 0.2:
+            cmds.append(["step"])
+        else:
+            later = [x for x in times if x >= t] or [t]
+            t = max(t, rng.choice(later) + rng.choice([-1, -1, 0, 0, 1, 1, 2]))
+            cmds.append(["runupto" if rng.random() < 0.6 else "runuptoincl", t])
+    return {"clock": clock, "scale": 40, "strategy": "pause", "prog": prog, "cmds": cmds + [["start"]]}
+
+
+BIG = 2 ** 53
+
+
+def big_cases():
+    """float simulator driven with Python ints beyond 2**53 (exact as ints, not as floats): bounds between
+    neighbouring event times, and a replication end that is not a float"""
+    out = []
+    q = lambda x: 4 * x
+    prog = [[["sched", ["abs", q(BIG)], 5, 1], ["sched", ["abs", q(BIG + 1)], 5, 1], ["sched", ["abs", q(BIG + 2)], 7, 2],
+             ["sched", ["abs", q(BIG + 3)], 5, 1]], [["sched", ["rel", q(1)], 3, 2]], []]
+    for cuts in ([["runupto", q(BIG + 1)]], [["runuptoincl", q(BIG + 1)]], [["runupto", q(BIG + 1)], ["runupto", q(BIG + 2)]],
+                 [["runuptoincl", q(BIG + 1)], ["step"], ["runupto", q(BIG + 3)]], [["runupto", q(BIG + 3)], ["runuptoincl", q(BIG + 3)]]):
+        out.append({"clock": "fint", "strategy": "pause", "prog": prog,
+                    "cmds": [["init", 0, 0, q(BIG + 9)]] + cuts + [["start"]]})
+    e = 10 ** 17 + 9
+    prog2 = [[["sched", ["abs", q(e - 1)], 5, 1], ["sched", ["abs", q(e)], 5, 1], ["sched", ["abs", q(e + 1)], 5, 1],
+              ["sched", ["abs", q(e + 3)], 5, 1], ["sched", ["abs", q(e + 7)], 5, 1]], []]
+    for cuts in ([], [["runupto", q(e)]], [["runuptoincl", q(e - 1)], ["step"]], [["runupto", q(e + 5)]]):
+        out.append({"clock": "fint", "strategy": "pause", "prog": prog2, "cmds": [["init", 0, 0, q(e)]] + cuts + [["start"]]})
+    return out
+
+
 def gen_case(rng: random.Random, i: int) -> dict:
     clock = S.CLOCKS[i % len(S.CLOCKS)]
+    if i % 8 in (5, 6):
+        return gen_fine_case(rng, "dur" if i % 8 == 5 else "float")
     u = S.unit_of(clock)
     prog = S.gen_program(rng, clock, p_illegal=0.05, p_cancel=0.10)
     init = S.gen_repl(rng, clock)
@@ -57,7 +98,12 @@ def gen_case(rng: random.Random, i: int) -> dict:
                 t = max(start, t - 3 * u)     # sometimes a bound in the past
             if rng.random() < 0.04:
                 t = end + 2 * u               # beyond the end
-            cmds.append(["runupto" if rng.random() < 0.5 else "runuptoincl", t])
+            cmd = ["runupto" if rng.random() < 0.5 else "runuptoincl", t]
+            if clock == "int" and rng.random() < 0.3:
+                cmd[1] = t = t + rng.choice([1, 2, 3])       # a fractional (dyadic) bound on the int simulator
+            elif clock == "float" and t % 4 == 0 and rng.random() < 0.4:
+                cmd.append("int")                              # an int bound on the float simulator
+            cmds.append(cmd)
     n_final = 4 if with_stop else 1
     cmds += [["start"]] * n_final
     return {"clock": clock, "strategy": "pause", "prog": prog, "cmds": cmds}
@@ -83,6 +129,7 @@ def cut_alphabet(u):
 def extra_cases(tier):
     """bounded-exhaustive segmentations of one small replication: every sequence of cuts up to a length"""
     out = []
+    out += big_cases()
     out += at_end_cases()       # pauses exactly at the end time (were not resumable before the repair of the guard)
     rng = random.Random(C.seed() * 7919 + 3)
     for clock in (["float"] if tier == "quick" else ["float", "int", "durmin"]):
@@ -104,6 +151,8 @@ def prepare(cases, obs):
     for c in cases:
         b = {"clock": c["clock"], "strategy": c["strategy"], "prog": strip_stops(c["prog"]),
              "cmds": [c["cmds"][0], ["start"]]}
+        if "scale" in c:
+            b["scale"] = c["scale"]
         k = json.dumps(b, sort_keys=True)
         if k not in uniq:
             uniq[k] = len(base)
@@ -180,6 +229,10 @@ def oracle(case, obs, ctx, idx):
         if ent[0] == "exec":
             if ent[2] > end:
                 return ("event-executed-after-end", f"event {ent[1]} ran at {ent[2]}/4, replication end {end}/4"), facts
+            if ent[2] < clock_before:
+                return ("event-executed-before-the-clock-left-by-the-previous-command",
+                        f"event {ent[1]} ran at {ent[2]} although the clock already stood at {clock_before}: "
+                        "the previous bounded run left an event earlier than its bound pending"), facts
             seg_exec.append(ent)
         elif ent[0] == "ntf" and ent[1] == "stopping":
             seg_stopped = True
@@ -252,7 +305,9 @@ RULE = ("bounded-exhaustive: every sequence of <= 2 cuts (quick: + 400 sampled t
         "on one small replication with a tie, a zero-delay child and an event exactly at the end; plus "
         "generated programs x random segmentations of the replication into run_up_to / run_up_to_including / step pieces "
         "(cuts before, at and between event times, at the end, beyond the end, in the past) and pauses - stop() called by a handler, "
-        "or by the controlling thread while a handler runs (rendezvous) - followed by start; each also run uninterrupted; non-trivial = distinct case executing >= 3 events with a bounded cut before the "
+        "or by the controlling thread while a handler runs (rendezvous) - followed by start; a quarter of the cases on the fine exact scale 2^-40 with cuts one step before / at / after event times; "
+        "fractional bounds on the int simulator, int bounds on the float simulator, and a float simulator driven with ints beyond 2^53 "
+        "(bounds between neighbouring ints, replication end 10^17+9); each also run uninterrupted; non-trivial = distinct case executing >= 3 events with a bounded cut before the "
         "end, a step, or a stop/start pause")
 
 
